@@ -251,6 +251,80 @@ fn header_spans(e: &[u8]) -> Vec<(usize, usize)> {
     v
 }
 
+/// element counts of the WIDE arrays: around 2^16 and up to the documented limit
+pub const WIDE_COUNTS: [usize; 6] = [65_535, 65_536, 65_537, 100_000, 1_048_575, 1_048_576];
+/// the widest array the protocol carries (documented: 1M elements)
+pub const ARRAY_LIMIT: usize = 1_048_576;
+
+/// a decode outcome in a few words (never the text of a million elements)
+fn brief(r: &Dec) -> String {
+    match r {
+        Dec::Ok(RespValue::Array(xs), n) => format!("ok, {n} bytes consumed, an array of {} elements", xs.len()),
+        Dec::Ok(_, n) => format!("ok, {n} bytes consumed, not an array"),
+        other => other.show(),
+    }
+}
+
+fn wide_arrays(cx: &mut Ctx) {
+    let flip = cx.rng.below(2) as usize;
+    let outer = |big: RespValue| RespValue::Array(vec![RespValue::Integer(7), RespValue::BulkString(Some("x".into())), big]);
+    for (i, count) in WIDE_COUNTS.into_iter().enumerate() {
+        for nested in [false, true] {
+            // the cheapest elements there are: the empty simple string (3 bytes) and the integer 0 (4 bytes)
+            let ints = (i + flip + nested as usize) % 2 == 1;
+            let elem = if ints { RespValue::Integer(0) } else { RespValue::SimpleString(String::new()) };
+            let big = RespValue::Array(vec![elem; count]);
+            let v = if nested { outer(big) } else { big };
+            let what = format!("an array of {count} x {} {}", if ints { "`:0`" } else { "the empty simple string" }, if nested { "as the last element of A[I7,B78,<wide>]" } else { "at top level" });
+            let replay = vec![format!("# resp: v = {what}; encode with RespSerializer::serialize, decode with a fresh RespParser")];
+            let Some(e) = enc(&v) else {
+                cx.out.violation("C14", format!("RespSerializer::serialize panicked on {what}"), replay);
+                continue;
+            };
+            cx.out.bump("wide_arrays");
+            let x = loop {
+                let x = cx.suffix();
+                if !x.is_empty() {
+                    break x;
+                }
+            };
+            let mut ex = e.clone();
+            ex.extend_from_slice(&x);
+            for (buf, how) in [(&e, "serialize(v)"), (&ex, "serialize(v) ++ x")] {
+                let r = dec(buf);
+                cx.out.bump("roundtrips");
+                let good = matches!(&r, Dec::Ok(v2, n) if *n == e.len() && *v2 == v);
+                if !good {
+                    cx.out.violation("C14", format!("{what} ({} bytes encoded; the protocol carries up to {ARRAY_LIMIT} elements): parse({how}) = {} instead of v and its {} bytes", e.len(), brief(&r), e.len()), replay.clone());
+                }
+            }
+            cx.out.bump("prefix_checks");
+            let r = dec(&e[..e.len() - 1]);
+            if r != Dec::Incomplete {
+                cx.out.violation("C13", format!("{what}: the encoding without its last byte gives {} instead of need-more-data", brief(&r)), replay.clone());
+            }
+        }
+    }
+    // one element more than the limit: rejected on sight of the header, and with every element present
+    let over = ARRAY_LIMIT + 1;
+    let hdr = format!("*{over}\r\n").into_bytes();
+    let r = cx.check(&hdr, true);
+    if r != Dec::Error {
+        cx.out.violation("C13", format!("the header of an array of {over} elements (limit {ARRAY_LIMIT}) gives {} instead of an error", brief(&r)), vec![rdec_line(&hdr)]);
+    }
+    for nested in [false, true] {
+        let big = RespValue::Array(vec![RespValue::SimpleString(String::new()); over]);
+        let v = if nested { outer(big) } else { big };
+        let what = format!("an array of {over} empty simple strings {}", if nested { "as the last element of A[I7,B78,<wide>]" } else { "at top level" });
+        let Some(e) = enc(&v) else { continue };
+        cx.out.bump("wide_arrays");
+        let r = dec(&e);
+        if r != Dec::Error {
+            cx.out.violation("C13", format!("{what} (limit {ARRAY_LIMIT}): the parser answers {} instead of rejecting it", brief(&r)), vec![format!("# resp: {what}, all {} bytes present", e.len())]);
+        }
+    }
+}
+
 pub fn run(seed: u64, n: usize, out: &mut Out) {
     let rng = Rng::new(seed);
     let mut cx = Ctx { out, rng, shared: RespParser::new() };
@@ -438,6 +512,12 @@ pub fn run(seed: u64, n: usize, out: &mut Out) {
             }
         }
     }
+
+    // (b3) WIDE arrays, up to the documented limit of 1 048 576 elements (no op lines: far too long).  Whatever the
+    // serializer emits the parser must take back: parse(serialize(v)) = (v, encoded length), with and without bytes
+    // after the value, at top level and as the last element of a small outer array; one element more than the limit
+    // is rejected - from the header alone and with all its elements present
+    wide_arrays(&mut cx);
 
     // (c) mutations of valid encodings
     let n_mut = n * 3;
